@@ -5,7 +5,9 @@ open GoImap GoImap.ServerSM GoImap.ServerSpec
 
 /-! line format (fields after the property id):
     id, row|hist, cfg, target, nsetup, history, greeting, observations, tail      or      id, audit, total, bad
-    observation of one step: calls|resp|bye|cont|respCaps|tls|probeCaps|probeFetch|probeEnable|probeCalls -/
+    observation of one step: calls|resp|bye|cont|respCaps|tls|probeCaps|probeFetch|probeEnable|probeCalls
+    a call is Name@state, followed by ! when the stub refused it; kind pipe: the steps from index nsetup on were
+    sent in one write, their calls are reported with the last of them and only the last is probed (~ elsewhere) -/
 
 def bit? (c : Char) : Option Bool := if c = '1' then some true else if c = '0' then some false else none
 
@@ -71,11 +73,14 @@ def parseHist? (s : String) : Option Hist :=
 def showCalls (l : List Call) : String :=
   if l.isEmpty then "-" else joinWith "+" (l.map fun (c, s) => callName c ++ "@" ++ stLetter s)
 
-def parseCalls? (s : String) : Option (List Call) :=
+/-- calls as observed: (call, state seen inside it, refused by the stub) -/
+def parseCalls? (s : String) : Option (List (Call × Bool)) :=
   if s = "-" then some [] else
   (splitOnChar s '+').mapM fun t =>
+    let failed := t.endsWith "!"
+    let t := if failed then (t.dropEnd 1).toString else t
     match splitOnChar t '@' with
-    | [c, st] => do pure ((← callTable.lookup c), (← stOfLetter? st))
+    | [c, st] => do pure (((← callTable.lookup c), (← stOfLetter? st)), failed)
     | _ => none
 
 def insertSorted (x : String) : List String → List String
@@ -115,20 +120,24 @@ def modelTail (cfg : Cfg) (outs : List Out) : String :=
 /-! ### the oracle, evaluated on what the implementation did -/
 
 structure StepObs where
-  calls : List Call
+  calls : List (Call × Bool)
   resp : String
   bye : Bool
   respCaps : String
   tls : Bool
+  probed : Bool
   probeCaps : String
   pf : String
   pe : String
-  probeCalls : List Call
+  probeCalls : List (Call × Bool)
 
 def parseObs? (s : String) : Option StepObs :=
   match splitOnChar s '|' with
-  | [calls, resp, bye, _cont, rcaps, tls, pcaps, pf, pe, pcalls] => do
-    pure ⟨← parseCalls? calls, resp, bye = "1", rcaps, tls = "1", pcaps, pf, pe, ← parseCalls? pcalls⟩
+  | [calls, resp, bye, _cont, rcaps, tls, pcaps, pf, pe, pcalls] =>
+    if pcaps = "~" then do
+      pure ⟨← parseCalls? calls, resp, bye = "1", rcaps, tls = "1", false, "-", "-", "-", []⟩
+    else do
+      pure ⟨← parseCalls? calls, resp, bye = "1", rcaps, tls = "1", true, pcaps, pf, pe, ← parseCalls? pcalls⟩
   | _ => none
 
 /-- the state a client finds after the step -/
@@ -140,19 +149,32 @@ def observedSt (o : StepObs) : St :=
 
 def capList (s : String) : List String := if s = "-" then [] else splitOnChar s ','
 
-def checkCalls (cfg : Cfg) (rc : RConn) (l : List Call) : Option String :=
-  l.findSome? fun (c, s) =>
+def checkCalls (cfg : Cfg) (rc : RConn) (l : List (Call × Bool)) : Option String :=
+  l.findSome? fun ((c, s), _) =>
     if !Permitted s c then some s!"call-not-permitted({callName c}@{stLetter s})"
     else if c = .login && !credsAllowed cfg rc.tls then some "credentials-without-tls"
     else none
 
-def oracleStep (cfg : Cfg) (rc : RConn) (k : CmdKind) (o : Outcome) (ob : StepObs) : RConn × Option String :=
-  let next := observedSt ob
+/-- what the oracle carries along a history: the RFC's view of the connection and the backend's own
+    view of whether it has a mailbox open -/
+structure OSt where
+  rc : RConn
+  bopen : Bool
+
+def oracleStep (cfg : Cfg) (os : OSt) (k : CmdKind) (o : Outcome) (ob : StepObs) : OSt × Option String :=
+  let rc := os.rc
+  -- a step that was not probed (pipelined before the last command of a write) is taken to have moved as the
+  -- RFC says; the probe after the last command of the write judges the whole group
+  let next := if ob.probed then observedSt ob else (rfcStep cfg rc k o).st
   let rc' : RConn := ⟨next, (rfcStep cfg rc k o).tls⟩
   let tag := s!"{kindName k}:{outcomeName o}@{stLetter rc.st}"
+  let allCalls := (ob.calls ++ ob.probeCalls).map fun ((c, _), failed) => (c, failed)
+  let (bopen', bv) := bviewCheck os.bopen allCalls
   let err : Option String :=
     if rc.st == .logout then
-      (if !ob.calls.isEmpty || !ob.probeCalls.isEmpty || ob.resp != "EOF" then some s!"processed-after-logout({tag})" else none)
+      (if !ob.calls.isEmpty || !ob.probeCalls.isEmpty || ob.resp != "EOF" then
+         some s!"processed-after-termination({tag};calls={ob.calls.length + ob.probeCalls.length},reply={ob.resp})"
+       else none)
     else
       match checkCalls cfg rc ob.calls with
       | some e => some e
@@ -161,7 +183,13 @@ def oracleStep (cfg : Cfg) (rc : RConn) (k : CmdKind) (o : Outcome) (ob : StepOb
       match checkCalls cfg rc' ob.probeCalls with
       | some e => some e
       | none =>
-        if !rfcAllowed cfg rc k o next then
+        match bv with
+        | some c => some s!"backend-view-mismatch({callName c} reaches a backend with no mailbox;{tag})"
+        | none =>
+        if !ob.probed then
+          (if (k == .logout && o != .parseErr || (k == .unknown || k == .uidUnknown) && rc.st == .notAuth) && !ob.bye then
+             some s!"ended-without-bye({tag})" else none)
+        else if !rfcAllowed cfg rc k o next then
           some s!"state-after({tag})={stLetter next},rfc={stLetter (rfcStep cfg rc k o).st}"
         else if next != .logout && ob.tls != rc'.tls then some s!"tls-state({tag})"
         else if (k == .logout && o != .parseErr || (k == .unknown || k == .uidUnknown) && rc.st == .notAuth) && !ob.bye then
@@ -174,7 +202,7 @@ def oracleStep (cfg : Cfg) (rc : RConn) (k : CmdKind) (o : Outcome) (ob : StepOb
               (capsRule cfg rc' (capList ob.respCaps)).map fun c => s!"caps-advert-in-completion({c})@{stLetter next}"
             else none
         else none
-  (rc', err)
+  (⟨rc', bopen'⟩, err)
 
 def oracleHist (cfg : Cfg) (h : Hist) (greetS : String) (obs : List String) (tail : String) : String :=
   match splitOnChar greetS '|' with
@@ -186,7 +214,7 @@ def oracleHist (cfg : Cfg) (h : Hist) (greetS : String) (obs : List String) (tai
       match capsRule cfg rc0 (capList gcaps) with
       | some c => s!"fail:caps-advert-in-greeting({c})"
       | none =>
-        let rec go (rc : RConn) (h : Hist) (obs : List String) (i : Nat) : Option String :=
+        let rec go (os : OSt) (h : Hist) (obs : List String) (i : Nat) : Option String :=
           match h, obs with
           | [], _ => none
           | _ :: _, [] => some "missing-observation"
@@ -194,16 +222,34 @@ def oracleHist (cfg : Cfg) (h : Hist) (greetS : String) (obs : List String) (tai
             match parseObs? ob with
             | none => some s!"unparsable-observation@step{i}"
             | some so =>
-              match oracleStep cfg rc k o so with
+              match oracleStep cfg os k o so with
               | (_, some e) => some s!"{e}@step{i}"
-              | (rc', none) => go rc' h' obs' (i + 1)
-        match go rc0 h obs 1 with
+              | (os', none) => go os' h' obs' (i + 1)
+        match go ⟨rc0, false⟩ h obs 1 with
         | some e => "fail:" ++ e
         | none =>
           if !tail.startsWith "closes=1@" then s!"fail:session-close-calls({tail})"
           else if !tail.endsWith "extra=0" then s!"fail:call-after-hangup({tail})"
           else "ok"
   | _ => "fail:no-greeting"
+
+/-- model observations of a case; `pipeFrom = some p`: the steps from index p on went out in one write -/
+def modelObsAll (cfg : Cfg) (outs : List Out) (pipeFrom : Option Nat) : List String :=
+  match pipeFrom with
+  | none => outs.map (modelObs cfg)
+  | some p =>
+    let pre := outs.take p
+    let g := outs.drop p
+    let n := g.length
+    let anyBye := g.any (·.bye)
+    let agg := g.flatMap (·.calls)
+    pre.map (modelObs cfg) ++
+      (g.zipIdx.map fun (r, i) =>
+        let byeHere := anyBye && i == 0
+        if i + 1 < n then
+          joinWith "|" [showCalls [], showResp r.resp, boolStr byeHere, toString r.cont,
+            (if r.caps then showCaps (availableCaps cfg r.conn) else "-"), boolStr r.conn.tls, "~", "~", "~", "~"]
+        else modelObs cfg { r with calls := agg, bye := byeHere })
 
 def targetOk (cfg : Cfg) (outs : List Out) (nsetup : Nat) (target : String) : Bool :=
   if target = "-" then true else
@@ -214,13 +260,16 @@ def handle (f : List String) : String :=
   match f with
   | [id, "audit", _total, bad] =>
     if bad = "0" then s!"{id}\t1\tok\t0" else s!"{id}\t1\tfail:session-not-closed-exactly-once({bad})\t0"
-  | [id, _kind, cfgS, target, nsetup, histS, greetS, obsS, tail] =>
+  | [id, kind, cfgS, target, nsetup, histS, greetS, obsS, tail] =>
     match parseCfg? cfgS, parseNat? nsetup, parseHist? histS with
     | some cfg, some ns, some h =>
       let outs := run cfg h
-      let mObs := if outs.isEmpty then "-" else joinWith ";" (outs.map (modelObs cfg))
+      let pipeFrom := if kind = "pipe" then some ns else none
+      let mObs := if outs.isEmpty then "-" else joinWith ";" (modelObsAll cfg outs pipeFrom)
       let model := joinWith "#" [modelGreet cfg, mObs, modelTail cfg outs]
-      let agree := modelGreet cfg == greetS && mObs == obsS && modelTail cfg outs == tail && targetOk cfg outs ns target
+      -- the refusal marks (!) are the stub's, not the server's: they feed the oracle only
+      let agree := modelGreet cfg == greetS && mObs == obsS.replace "!" "" && modelTail cfg outs == tail
+        && targetOk cfg outs ns target
       let orc := oracleHist cfg h greetS (if obsS = "-" then [] else splitOnChar obsS ';') tail
       s!"{id}\t{boolStr agree}\t{orc}\t{model}"
     | _, _, _ => s!"{id}\t0\tfail:bad-line\t-"
